@@ -37,7 +37,8 @@ bool_t btokPwdTransition(btok_pwd_state* state, btok_pwd_event event)
 		state->auth = auth_none;
 		return TRUE;
 	case pin_deactivate:
-		if (state->auth != auth_pin && state->auth != auth_puk)
+		if (state->auth != auth_pin && state->auth != auth_puk ||
+			state->pin == puk0)
 			return FALSE;
 		state->pin = pind;
 		if (state->auth == auth_pin)
